@@ -171,26 +171,41 @@ def c07h(F, R):
         if not recs:
             R.bad("Expected|no-recovery", "the Expected arm no longer recovers at all", loc(arm))
             continue
-        guarded = False
-        x = recs[0]
-        while id(x) in pm and pm[id(x)] is not arm:
-            par = pm[id(x)]
-            if par.get("k") == "If":
-                cond_nodes = list(walk(par["cond"], pats=False))
-                names = {n_["res"] for n_ in cond_nodes if n_.get("k") == "Path" and n_.get("res_kind") == "Local"}
-                direct = any(n_.get("k") == "Path" and (n_.get("res") or "").endswith("TokenType::Newline") for n_ in cond_nodes)
-                via_local = False
-                for s_ in walk(arm["body"], pats=False):
-                    if s_.get("k") == "Let" and s_["pat"].get("k") == "PBinding" and s_["pat"]["name"] in names and s_.get("init"):
-                        if any(n_.get("k") == "Path" and (n_.get("res") or "").endswith("TokenType::Newline") for n_ in walk(s_["init"], pats=False)):
-                            via_local = True
-                if direct or via_local:
-                    guarded = True
-            x = par
-        if guarded:
-            R.ok("Expected|newline-guard", detail="recover_from_parse_error is skipped when the unexpected token is the Newline", where=loc(recs[0]))
-        else:
+        # the test `<the token that was found> is the Newline`, in whatever spelling, as an atom; the recovery must be reached
+        # exactly when it is false: reached when true, it swallows the following line; not reached when false, the rest of the
+        # malformed line is parsed as new statements
+        lets_ = local_inits(arm["body"])
+
+        def classify(e):
+            e = peel(e)
+            if e.get("k") == "Binary" and e["op"] in ("Eq", "Ne") and any(y.get("k") == "Path" and (y.get("res") or "").endswith("TokenType::Newline") for y in (peel(e["a"]), peel(e["b"]), *[peel(z) for w in (e["a"], e["b"]) for z in walk(w, pats=False)])):
+                return "nl" if e["op"] == "Eq" else "not_nl"
+            if e.get("k") == "Match" and e.get("src") in (None, "Normal") and len(e["arms"]) == 2 and all(isinstance(lit_value(a_["body"]), bool) for a_ in e["arms"]) \
+                    and any((y.get("res") or "").endswith("TokenType::Newline") for y in walk(e["arms"][0]["pat"])):
+                return "nl" if lit_value(e["arms"][0]["body"]) else "not_nl"     # matches!(got, TokenType::Newline)
+            return None
+        cons = path_constraints(pm, recs[0])
+
+        def reached(nl):
+            env = {"nl": nl, "not_nl": not nl}
+            out = True
+            for c, want in cons:
+                if not any(classify(y) is not None for y in walk_expanded(c, lets_)):
+                    continue
+                v = bool3(c, classify, env, lets_)
+                if v is None:
+                    return None
+                out = out and (v == want)
+            return out
+        r_nl, r_other = reached(True), reached(False)
+        if r_nl is False and r_other is True:
+            R.ok("Expected|newline-guard", detail="recover_from_parse_error runs exactly when the unexpected token is not the Newline", where=loc(recs[0]))
+        elif r_nl is None or r_other is None:
+            R.bad("Expected|newline-guard|unextractable", "UNEXTRACTABLE: the condition under which the Expected arm recovers", loc(recs[0]))
+        elif r_nl:
             R.bad("Expected|newline-guard", "after `Expected .. found NEWLINE` (a missing trailing operand) recovery still skips to the next newline: the whole following line is dropped without nodes or an error", loc(recs[0]))
+        else:
+            R.bad("Expected|newline-guard", "the Expected arm does not recover when the unexpected token is *not* the newline: the rest of the malformed line is parsed as new statements (and what is left of it can be taken for an instruction)", loc(recs[0]))
 
 
 @rule("C07", "C07.c.silent-variant-construction", floor=2)
@@ -2286,6 +2301,78 @@ def c18f(F, R):
             R.bad(key, f"the blank gutter of excerpt line {gi + 1} is {k_const}+digits wide (+{lit_len} literal) while the number line prints {num_lit} character(s) before the number: the marker is shifted", loc(width_e))
 
 
+_TOKEN_READS = ("get_any", "get_reg", "get_imm", "get_label", "get_string", "get_csrimm")
+
+
+def _takes_token(n):
+    return n.get("k") == "MethodCall" and (n["name"] in _TOKEN_READS or (n["name"].startswith("get_") and "AnnotatedLexer" in (n["recv"].get("ty") or "") + (n["recv"].get("aty") or "")))
+
+
+def _loop_paths(e, c):
+    """outcomes of evaluating e, entered with `a token was taken = c`: {(status, taken)}, status: next (control goes on) | continue | exit (break / return / `?`)"""
+    if e is None:
+        return {("next", c)}
+    k = e.get("k")
+    if k in ("Break", "Ret"):
+        return {("exit", c2) if st == "next" else (st, c2) for st, c2 in (_loop_paths(e["e"], c) if e.get("e") is not None else {("next", c)})}
+    if k == "Continue":
+        return {("continue", c)}
+    if k == "Closure":
+        return {("next", c)}
+    if k == "Loop":
+        return {("next", c or any(_takes_token(y) for y in walk(e, pats=False)))}      # an inner loop is judged on its own
+    if k == "Block":
+        return _loop_seq(list(e.get("stmts", [])) + ([e["expr"]] if e.get("expr") is not None else []), c)
+    if k == "Let":
+        out = set()
+        for st, c2 in _loop_seq([e["init"]] if e.get("init") is not None else [], c):
+            out.add((st, c2))
+            if st == "next" and e.get("els") is not None:
+                out |= {(st3 if st3 != "next" else "exit", c3) for st3, c3 in _loop_paths(e["els"], c2)}      # an else block diverges
+        return out
+    if k in ("Semi", "Expr") and e.get("e") is not None:
+        return _loop_paths(e["e"], c)
+    if k == "If":
+        out = set()
+        for st, c2 in _loop_paths(e["cond"], c):
+            if st != "next":
+                out.add((st, c2))
+                continue
+            out |= _loop_paths(e["then"], c2)
+            out |= _loop_paths(e["else"], c2) if e.get("else") is not None else {("next", c2)}
+        return out
+    if k == "Match":
+        out = set()
+        for st, c2 in _loop_paths(e["scrut"], c):
+            if st != "next":
+                out.add((st, c2))
+                continue
+            for a in e["arms"]:
+                for st3, c3 in (_loop_paths(a["guard"], c2) if a.get("guard") is not None else {("next", c2)}):
+                    if st3 != "next":
+                        out.add((st3, c3))
+                    else:
+                        out |= _loop_paths(a["body"], c3)
+        return out
+    if k == "LetExpr":
+        return _loop_paths(e["init"], c)
+    # any other expression: its operands in order, then the node itself
+    return {(st, (c2 or _takes_token(e)) if st == "next" else c2) for st, c2 in _loop_seq(list(children(e, pats=False)), c)}
+
+
+def _loop_seq(seq, c):
+    cur = {("next", c)}
+    for x in seq:
+        nxt = set()
+        for st, c2 in cur:
+            if st != "next":
+                nxt.add((st, c2))
+            else:
+                nxt |= _loop_paths(x, c2)
+        cur = nxt
+    return cur
+
+
 @rule("C06", "C06.e.end-of-input-ends-token-loops", floor=3)
 @rule("C07", "C07.k.end-of-input-ends-token-loops", floor=3)
 def c07k(F, R):
@@ -2361,6 +2448,13 @@ def c07k(F, R):
             R.ok(key, detail="the loop is left when a token read fails (end of input)", where=loc(lp))
         else:
             R.bad(key, "a decoder loop reads tokens but has no exit on a failing read: it cannot end at the end of the input", loc(lp))
+        # (4) ... and every way round the loop takes a token: a path that reaches the end of the body (or a `continue`) having only
+        # looked ahead sees the same token again, for ever
+        stalls = sorted({st for st, took in _loop_paths(lp["body"], False) if st in ("next", "continue") and not took})
+        if stalls:
+            R.bad(f"loop|{n_loop}|advances", "a path round this decoder loop reads no token (it only looks ahead, or tests what it saw) and does not leave the loop: the same token is seen again on the next round and the linter never returns - `.word 1` followed by a line that is neither a number nor the end of the line", loc(lp))
+        else:
+            R.ok(f"loop|{n_loop}|advances", detail="every path round the loop reads a token or leaves the loop", where=loc(lp))
 
 
 @rule("C07", "C07.l.only-consume-char-moves-the-cursor", floor=3)
